@@ -254,6 +254,14 @@ func resolve(c *ssa.CallCommon) []*ssa.Function {
 	return nil
 }
 
+// syncHigherOrder: standard-library functions that run the function value they are given synchronously.
+var syncHigherOrder = map[string]bool{
+	"sync.Do": true, "sync.Range": true, "sort.Slice": true, "sort.SliceStable": true, "sort.Search": true,
+	"strings.Map": true, "strings.FieldsFunc": true, "strings.IndexFunc": true, "strings.TrimFunc": true,
+	"bytes.Map": true, "bytes.FieldsFunc": true, "bytes.IndexFunc": true, "bytes.TrimFunc": true,
+	"path/filepath.Walk": true, "path/filepath.WalkDir": true,
+}
+
 func fnOfValue(v ssa.Value) *ssa.Function {
 	switch x := v.(type) {
 	case *ssa.MakeClosure:
@@ -362,6 +370,12 @@ func analyse(fi *fnInfo) {
 						if ci := infos[cal]; ci != nil && ci.calledPar[ai+off] {
 							called = true
 						}
+					}
+					// functions of the standard library that call their function argument before they return
+					// (the callee is not analysed, so calledPar knows nothing about it): sync.Once.Do above all,
+					// which lal uses in every dispose path
+					if sc := c.StaticCallee(); sc != nil && sc.Pkg != nil && syncHigherOrder[sc.Pkg.Pkg.Path()+"."+sc.Name()] {
+						called = true
 					}
 					if called {
 						extra = append(extra, af)
